@@ -19,7 +19,7 @@ RULE = ("Histories over the state-changing API: force_constants= (full|compact, 
         "the cell object handed to the constructor is guarded; interleaved with queries (q-points with all "
         "outputs, mesh + thermal properties, random displacements) that populate caches; three small crystals; constructor "
         "variants (group_velocity_delta_q, is_symmetry). 'enum': ALL sequences of length <= 2 (quick) / <= 3 (thorough) over a "
-        "canonical 15-letter alphabet, for the three dynamical-matrix classes. Non-trivial: >= 2 state changes of different "
+        "canonical 17-letter alphabet, for the three dynamical-matrix classes. Non-trivial: >= 2 state changes of different "
         "kinds before the last query. Distinct by hash of the history.")
 ASSUMPTIONS = [
     "force_constants handed in as an OWNED float64 C-contiguous array is documented to be shared and modified in place by the "
@@ -33,7 +33,8 @@ CELLS = {
     "wz": dict(symbols=["Ga", "Ga", "N", "N"], cell=[[3.2, 0, 0], [-1.6, 3.2 * np.sqrt(3) / 2, 0], [0, 0, 5.2]],
                scaled_positions=[[1 / 3, 2 / 3, 0], [2 / 3, 1 / 3, .5], [1 / 3, 2 / 3, .375], [2 / 3, 1 / 3, .875]], smat=[2, 1, 1]),
 }
-QS = [[0.1, 0.2, 0.3], [0.5, 0, 0], [0, 0, 0], [0.31, -0.12, 0.44], [1.25, 0.5, -0.25]]
+QS = [[0.1, 0.2, 0.3], [0.5, 0, 0], [0, 0, 0], [0.31, -0.12, 0.44], [1.25, 0.5, -0.25], [0, 0, 0.3],
+      [0.25, 0.25, 0.5]]  # the last two: degenerate pairs; at (1/4,1/4,1/2) in cscl their velocities depend on how the degeneracy is lifted
 
 
 def make(cellname, ctor):
@@ -99,8 +100,8 @@ class Hist:
                 store = np.zeros((2,) + fc.shape)
                 store[0] = fc
                 store[1] = 7.0
+                self._guard("force-constant storage handed in as a non-owning view", store)  # snapshot BEFORE the hand-over
                 ph.force_constants = store[0]
-                self._guard("force-constant storage handed in as a non-owning view", store)
             elif how == "list":
                 lst = fc.tolist()
                 ph.force_constants = lst
@@ -115,8 +116,8 @@ class Hist:
                 u[d["number"]] = d["displacement"]
                 forces.append(-np.einsum("ijab,jb->ia", fc, u))
             forces = np.array(forces)
-            ph.forces = forces
             self._guard("forces array handed to the forces setter", forces)
+            ph.forces = forces
             ph.produce_force_constants(calculate_full_force_constants=step.get("full", True))
         elif op == "dataset2":
             # type-2 dataset (displacements + forces arrays) replaces whatever was there
@@ -125,9 +126,9 @@ class Hist:
             disps = rng.normal(size=(nd, n, 3)) * 0.01
             frc = -np.einsum("ijab,njb->nia", fc, disps)
             ds = {"displacements": disps, "forces": frc}
-            ph.dataset = ds
             self._guard("displacements handed in through dataset=", disps)
             self._guard("forces handed in through dataset=", frc)
+            ph.dataset = ds
             if step.get("produce", True):
                 try:
                     ph.produce_force_constants(fc_calculator=None)
@@ -150,11 +151,16 @@ class Hist:
                 self.model_nac = None
             else:
                 Z, eps = sym_nac(ph.primitive, rng)
+                if step.get("data") == "drift":  # as computed: the acoustic sum rule is violated by a small common tensor
+                    Z = Z + 0.05 * rng.normal(size=(3, 3))[None]
+                elif step.get("data") == "raw":  # not symmetrised at all
+                    Z = Z + 0.1 * rng.normal(size=Z.shape)
+                    eps = eps + 0.05 * (lambda a: a + a.T)(rng.normal(size=(3, 3)))
                 params = {"born": Z, "dielectric": eps, "factor": 14.4, "method": m}
-                ph.nac_params = params
-                self.model_nac = copy.deepcopy(params)
+                self.model_nac = copy.deepcopy(params)  # model and snapshots are taken BEFORE the object sees the data
                 self._guard("Born charges handed in through nac_params=", Z)
                 self._guard("dielectric tensor handed in through nac_params=", eps)
+                ph.nac_params = params
         elif op == "masses":
             cur = np.array(self.model_masses if self.model_masses is not None else self._prim_masses0(), dtype=float)
             how = step.get("how", "random")
@@ -165,9 +171,9 @@ class Hist:
                 m[-1] *= 1.0 + 1e-3
             else:
                 m = rng.uniform(5, 50, size=len(ph.primitive))
-            ph.masses = m
             self.model_masses = np.array(m, copy=True)
             self._guard("masses handed to the masses setter", m)
+            ph.masses = m
         elif op == "copy":
             before = self.probe(ph)
             cells_before = [np.array(c.masses, copy=True) for c in (ph.unitcell, ph.supercell, ph.primitive)]
@@ -186,6 +192,11 @@ class Hist:
                 self.ph.nac_params = copy.deepcopy(ph.nac_params)
         elif op == "query_q":
             self.probe(ph)
+            self.n_changes_before_query = len(set(self.kinds))
+            return "query"
+        elif op == "query_dir":
+            # an earlier query with its own direction for the zone centre / for lifting degeneracies must not leak into later queries
+            ph.run_qpoints(QS, with_group_velocities=True, with_eigenvectors=True, nac_q_direction=step.get("dir", [0.3, -0.5, 0.8]))
             self.n_changes_before_query = len(set(self.kinds))
             return "query"
         elif op == "query_mesh":
@@ -235,7 +246,7 @@ class Hist:
         for i in range(len(QS)):
             f = b[2][i]
             gap = np.array([np.min(np.abs(np.delete(f, j) - f[j])) if len(f) > 1 else 1.0 for j in range(len(f))])
-            ok = (gap > 1e-2) & (f > 5e-2)
+            ok = f > 5e-2  # degenerate modes included: both objects are asked the same question about the same matrix
             if ok.any() and np.abs(a[1][i][ok] - b[1][i][ok]).max() > 1e-6 * max(1.0, np.abs(b[1][i][ok]).max()):
                 return "group velocities differ from a freshly constructed object: %.3e" % np.abs(a[1][i][ok] - b[1][i][ok]).max()
         for what, live, snap in self.guards:
@@ -267,7 +278,8 @@ ALPHABET = [
     {"op": "set_fc", "key": 5, "layout": "full", "how": "view"}, {"op": "produce", "key": 6, "full": True}, {"op": "produce", "key": 7, "full": False},
     {"op": "sym", "level": 1}, {"op": "sym_sg"}, {"op": "cutoff", "r": 3.4}, {"op": "nac", "method": "gonze", "key": 8},
     {"op": "nac", "method": "wang", "key": 9}, {"op": "nac", "method": "none"}, {"op": "masses", "key": 10}, {"op": "query_mesh", "ev": True, "gv": True},
-    {"op": "masses", "key": 11, "how": "tiny"}, {"op": "copy"},
+    {"op": "masses", "key": 11, "how": "tiny"}, {"op": "copy"}, {"op": "query_dir", "dir": [0.3, -0.5, 0.8]},
+    {"op": "nac", "method": "wang", "key": 12, "data": "drift"},
 ]
 
 
@@ -278,7 +290,11 @@ def enum_specs(tier):
         pre = [] if first_nac == "none" else [{"op": "nac", "method": first_nac, "key": 2}]
         for L in range(1, maxlen + 1):
             for seq in itertools.product(range(len(ALPHABET)), repeat=L):
-                out.append({"cell": "tric2" if (sum(seq) + L) % 2 else "wz", "ctor": {}, "steps": pre + [{"op": "query_q"}] + [ALPHABET[i] for i in seq]})
+                cell, ctor = ("tric2" if (sum(seq) + L) % 2 else "wz"), {}
+                if any(ALPHABET[i]["op"] == "query_dir" for i in seq):
+                    # the cell with a q-point where the direction used to lift a degeneracy matters (and no symmetrisation hides it)
+                    cell, ctor = "cscl", {"is_symmetry": False}
+                out.append({"cell": cell, "ctor": ctor, "steps": pre + [{"op": "query_q"}] + [ALPHABET[i] for i in seq]})
     return out
 
 
@@ -353,9 +369,13 @@ def machine_shard(args, stats):
         def cutoff(self, r):
             self._do({"op": "cutoff", "r": r})
 
-        @rule(method=st.sampled_from(["none", "wang", "gonze", "gonze"]), key=keys_)
-        def nac(self, method, key):
-            self._do({"op": "nac", "method": method, "key": key})
+        @rule(method=st.sampled_from(["none", "wang", "gonze", "gonze"]), key=keys_, data=st.sampled_from(["sym", "sym", "drift", "raw"]))
+        def nac(self, method, key, data):
+            self._do({"op": "nac", "method": method, "key": key, "data": data})
+
+        @rule(d=st.lists(st.sampled_from([0.0, 1.0, -0.5, 0.3, 0.8]), min_size=3, max_size=3).filter(lambda v: any(v)))
+        def query_dir(self, d):
+            self._do({"op": "query_dir", "dir": d})
 
         @rule(key=keys_, how=st.sampled_from(["random", "random", "tiny", "one"]))
         def masses(self, key, how):
